@@ -10,7 +10,11 @@ from .iter_rules import EC
 def run(chk, ctx):
     P = Prog(ctx["facts"])
     from . import c01
-    c01.stmt_arm_rule(chk, P, only=("ResetRandom",))   # every `resetRandom;` the program contains becomes a statement
+    c01.stmt_arm_rule(chk, P, only=("ResetRandom",))
+    # how often the interpreter evaluates an expression (each row entry, let and loop bound once; the while condition once per test)
+    c01.run(chk.only(("AUT:states-classified", "AUT:2:", "AUT:3:", "AUT:5:", "AUT:9:while-test")), ctx)
+    from . import c08
+    c08.operand_evaluation_rule(chk, P)   # no operand (and so no draw inside it) is skipped or repeated: only ite is lazy   # every `resetRandom;` the program contains becomes a statement
     L = panrules.Lemmas(P, chk)
     chk.explanation = ("C17 decided structurally: term/ORG (the function bound to \"random\" samples a half-open Range{start: c >= 0, end: eval(args[0])} with gen_range and returns that value unchanged — no inclusive range, no end+1, no post-processing), "
                        "CNT (exactly one EvalContext::random call and one evaluation of args[0] per Ok path; random() performs exactly one gen_range), WHO (random is called only from that function; the rng field is touched only by the constructor, reset_random_seed and random), "
